@@ -24,10 +24,11 @@ PROPS = {
         "spec_is_property": False,
         "ignore_spec_mm": True,
         "streams": {
-            "quick": [("default", "core", 4000), ("default", "hist", 1500), ("embedded", "core", 1500)],
+            "quick": [("default", "core", 4000), ("default", "hist", 1500), ("embedded", "core", 1500),
+                      ("default", "hugepiece", 0), ("embedded", "hugepiece", 0)],
             "thorough": [("default", "core", 40000), ("default", "hist", 20000), ("embedded", "core", 20000),
                          ("embedded", "hist", 10000), ("naive", "core", 20000), ("unsafe", "core", 20000),
-                         ("default", "gen", 20000)],
+                         ("default", "gen", 20000), ("default", "hugepiece", 0), ("unsafe", "hugepiece", 0)],
         },
         "assumptions": [
             "update() is modelled by Model.update (hand transcription of generate.rs); the tie is the `core` "
@@ -47,10 +48,12 @@ PROPS = {
         "extract_keys": ["length MAX", "TOP_VALUE", "length thresholds", "WINDOW_SIZE"],
         "spec_is_property": True,
         "streams": {
-            "quick": [("default", "core", 6000), ("embedded", "core", 2000), ("default-dev", "core", 3000)],
+            "quick": [("default", "core", 6000), ("embedded", "core", 2000), ("default-dev", "core", 3000),
+                      ("default", "hugepiece", 0), ("default-dev", "hugepiece", 0)],
             "thorough": [("default", "core", 60000), ("embedded", "core", 30000), ("naive", "core", 30000),
                          ("unsafe", "core", 30000), ("default-dev", "core", 30000), ("unsafe-dev", "core", 30000),
-                         ("default", "state", 20000)],
+                         ("default", "state", 20000), ("default", "hugepiece", 0), ("unsafe-dev", "hugepiece", 0),
+                         ("default", "huge", 0)],
         },
         "assumptions": [
             "counters are modelled in unbounded Nat with the Rust clamps written out; `default-dev` runs the "
@@ -94,13 +97,14 @@ PROPS = {
         ],
     },
     "C10": {
-        "modules": [T + "C10", T + "TablesLimits"],
+        "modules": [T + "C10"],
         "theorems": [(T + "C10.length_error_iff", T + "C10"),
                      (T + "C10.finalize_mono", T + "C10"),
                      (T + "C10.quarter_implies_half", T + "C10"),
-                     (T + "Tables.limits", T + "TablesLimits")],
+                     ],
         "extract_keys": ["length thresholds", "length MAX", "option flags", "FuzzyHashBucketMapper"],
         "spec_is_property": False,
+        "ignore_spec_mm": True,   # the absolute values of the limits are C09 / C11's business
         "streams": {
             "quick": [("default", "state", 3000), ("default", "limits", 300), ("embedded", "state", 1000),
                       ("default", "gen", 1500)],
